@@ -143,6 +143,10 @@ func CheckC14(e *fw.Env, l *Lab) {
 			}
 			t := l.NewTransfer(e.R, m.Denom, big.NewInt(1_000_000), nil)
 			t.Memo = m.Memo
+			if idx%8 == 3 {
+				// the other valid spelling of the orbiter address: the same account, the same rules
+				t.Receiver = strings.ToUpper(t.Receiver)
+			}
 			e.Log(map[string]any{"mut": m})
 			ctx, _ := base.CacheContext()
 			o := run.Do(w, ctx, t, modC)
